@@ -98,6 +98,9 @@ impl<T> SharedFd<T> {
                 })
                 .await
             } else {
+                // Another `take` is already waiting. Let go of this handle through `Drop`, so that
+                // the waiting one is woken if this was the last other holder.
+                drop(Self(inner));
                 None
             }
         }
